@@ -397,7 +397,10 @@ func thriftTargets(r *h.Rand, desc *thrift.TypeDescriptor, v *tref.Val, root *ge
 	return ts
 }
 
-func protoTargets(r *h.Rand, desc *dproto.TypeDescriptor) []c06Target {
+func protoTargets(r *h.Rand, desc *dproto.TypeDescriptor, nums ...int32) []c06Target {
+	if len(nums) == 0 {
+		nums = []int32{1, 2, 3, 4}
+	}
 	opts := &pg.Options{MapStructById: r.Bool(), UseNativeSkip: r.Bool()}
 	copts := conv.Options{DisallowUnknownField: r.Bool(), Int642String: r.Bool()}
 	return []c06Target{
@@ -425,6 +428,47 @@ func protoTargets(r *h.Rand, desc *dproto.TypeDescriptor) []c06Target {
 					x.GetByPath(pg.NewPathFieldId(1)).Interface(opts)
 				}
 			}
+		}},
+		{"proto.generic.Value.step-accessors", func(in []byte) {
+			root := pg.NewRootValue(desc, in)
+			inside := func(x pg.Value) bool {
+				if x.IsError() {
+					return false
+				}
+				raw := x.Raw()
+				if len(raw) > 0 {
+					p := uintptr(unsafe.Pointer(&raw[0]))
+					var base uintptr
+					if len(in) > 0 {
+						base = uintptr(unsafe.Pointer(&in[0]))
+					}
+					if len(in) == 0 || p < base || p+uintptr(len(raw)) > base+uintptr(len(in)) {
+						panic(fmt.Sprintf("proto node outside the input: off=%d len=%d input=%d", int64(p)-int64(base), len(raw), len(in)))
+					}
+				}
+				x.Interface(opts)
+				return true
+			}
+			var many []pg.PathNode
+			for _, n := range nums {
+				many = append(many, pg.PathNode{Path: pg.NewPathFieldId(dproto.FieldNumber(n))})
+				x := root.Field(dproto.FieldNumber(n))
+				if !inside(x) {
+					continue
+				}
+				for i := 0; i < 3; i++ {
+					inside(x.Index(i))
+				}
+				inside(x.GetByStr("k"))
+				inside(x.GetByInt(1))
+				inside(x.Field(1))
+				ins := []pg.PathNode{{Path: pg.NewPathIndex(0)}, {Path: pg.NewPathIndex(2)}}
+				x.Indexes(ins, opts)
+				ks := []pg.PathNode{{Path: pg.NewPathIntKey(1)}, {Path: pg.NewPathStrKey("k")}}
+				x.Gets(ks[:1], opts)
+				x.Gets(ks[1:], opts)
+			}
+			root.GetMany(many, opts)
 		}},
 		{"proto.generic.Value.Children", func(in []byte) {
 			root := pg.NewRootValue(desc, in)
@@ -650,7 +694,11 @@ func runC06(c *h.Ctx) {
 				muts = append(muts, c06Mut{"proto-truncate-all", append([]byte{}, b[:i]...)})
 			}
 		}
-		ts := protoTargets(cs.R, desc)
+		var nums []int32
+		for i := 0; i < pc.Root.Fields().Len(); i++ {
+			nums = append(nums, int32(pc.Root.Fields().Get(i).Number()))
+		}
+		ts := protoTargets(cs.R, desc, nums...)
 		for _, mu := range muts {
 			cs.Info("mutation", mu.class)
 			c06Call(cs, ts[cs.R.Intn(len(ts))], mu.b)
